@@ -266,3 +266,54 @@ class SaveFailureLeavesDestinationUntouched(SaveNeverOpensDestinationBeforeSucce
     @property
     def raises(self):
         return {_Boom: lambda a: len([e for e in a._log if e[0] == "open"]) == 0}
+
+
+@contract
+class WriteTableDependencyOrder(Contract):
+    """_writeTable writes every table a table class declares as a dependency BEFORE the table
+    itself (that is what lets hmtx/vmtx/glyf update hhea/vhea/maxp/loca/head before those are
+    compiled), each table exactly once."""
+    module = "fontTools.ttLib.ttFont"
+    qualname = "TTFont._writeTable"
+    props = ("C16", "C04")
+    shadow_mode = "function"
+    also = ("TTFont.getTableData",)
+    variants = ("chain", "diamond", "missing-dependency")
+    level = "PF"
+
+    DEPS = {"chain": {"aaaa": ["bbbb"], "bbbb": ["cccc"], "cccc": []},
+            "diamond": {"aaaa": ["bbbb", "cccc"], "bbbb": ["dddd"], "cccc": ["dddd"], "dddd": []},
+            "missing-dependency": {"aaaa": ["zzzz", "bbbb"], "bbbb": []}}
+
+    def rebind(self):
+        outer = self
+
+        def getTableClass(tag):
+            class T:
+                dependencies = outer._deps.get(tag, [])
+            return T
+        return {"getTableClass": getTableClass}
+
+    def args(self, S, variant):
+        from fontTools.ttLib import TTFont
+
+        self._deps = self.DEPS[variant]
+        font = TTFont()
+        font.reader = {t: _payload(S, "raw_" + t) for t in self._deps}
+        w = _RecWriter()
+        return dict(self=font, tag="aaaa", writer=w, done=[], _deps=self._deps)
+
+    def call(self, f, a):
+        import types
+        # the method recurses through self._writeTable: bind the function under verification
+        a.self._writeTable = types.MethodType(f, a.self)
+        return f(a.self, a.tag, a.writer, a.done)
+
+    @staticmethod
+    def _post(a):
+        order = [t for t, d in a.writer.sets]
+        if len(order) != len(set(order)) or set(order) != set(a._deps):
+            return False
+        return all(order.index(dep) < order.index(t) for t, deps in a._deps.items() for dep in deps if dep in a._deps)
+
+    ensures = [prop("dependencies-first-each-table-once", lambda a, old, r: WriteTableDependencyOrder._post(a))]
